@@ -196,6 +196,104 @@ def World.destroyAll (w : World) : World :=
   let w := (w.eps.map (·.1)).foldl World.destroyEp w
   { w with onaccept := [], routes := [], maxDelivered := [] }
 
+/-! ### structure-aware re-encoding of a handshake datagram (`craft` / `lcraft`) -/
+structure HsFields where
+  session : Nat := 0
+  client : Nat := 0
+  restart : Bool := false
+  minver : Nat := 0
+  curver : Nat := 3
+  ptype : Nat := 0
+  count : Nat := 0
+  netver : Nat := 0
+  sid : Bool := false
+  ts : Bits := []
+  cookie : Bits := []
+
+def hsDecodeFields (e : Env) (bytes : List UInt8) : Option HsFields :=
+  match readInit bytes with
+  | none => none
+  | some bits =>
+    match readBits e.magicBits bits with
+    | .fail _ => none
+    | .ok _ r =>
+    match readBits 2 r with
+    | .fail _ => none
+    | .ok s r =>
+    match readBits 3 r with
+    | .fail _ => none
+    | .ok c r =>
+    match readBit r with
+    | .fail _ => none
+    | .ok hs r =>
+    if !hs then none else
+    match readBit r with
+    | .fail _ => none
+    | .ok restart r =>
+    match readByte r with
+    | .fail _ => none
+    | .ok minv r =>
+    match readByte r with
+    | .fail _ => none
+    | .ok curv r =>
+    match readByte r with
+    | .fail _ => none
+    | .ok ptype r =>
+    match readByte r with
+    | .fail _ => none
+    | .ok cnt r =>
+    match (if curv ≥ 2 then readU32 r else .ok 0 r) with
+    | .fail _ => none
+    | .ok netv r =>
+    match readBit r with
+    | .fail _ => none
+    | .ok sid r =>
+    match readBits 64 r with
+    | .fail _ => none
+    | .ok ts r =>
+    match readBits 160 r with
+    | .fail _ => none
+    | .ok ck _ =>
+      some { session := bitsToNat s, client := bitsToNat c, restart := restart, minver := minv, curver := curv, ptype := ptype,
+             count := cnt, netver := netv, sid := sid, ts := ts, cookie := ck }
+
+def hsEncodeFields (e : Env) (f : HsFields) (extra : Option (List UInt8)) (pad : Nat) : List UInt8 :=
+  bitsToBytes (
+    natToBits e.magic e.magicBits
+    ++ (if f.curver ≥ 3 then natToBits f.session 2 ++ natToBits f.client 3 else [])
+    ++ [true, f.restart]
+    ++ (if f.curver ≥ 1 then writeByte f.minver ++ writeByte f.curver ++ writeByte f.ptype ++ writeByte f.count else [])
+    ++ (if f.curver ≥ 2 then writeU32 f.netver else [])
+    ++ [f.sid] ++ f.ts ++ f.cookie
+    ++ (match extra with | some x => bytesToBits x | none => [])
+    ++ List.replicate (8 * pad) false ++ [true])
+
+def flipCookieBit (ck : Bits) (byteIdx : Nat) : Bits :=
+  ck.mapIdx fun i b => if i == 8 * (byteIdx % 20) then !b else b
+
+/-- args: restart type curver count sid cookieflip extra pad (−1 = keep) -/
+def craftDatagram (e : Env) (src : List UInt8) (args : List Int) : Option (List UInt8) :=
+  match hsDecodeFields e src with
+  | none => none
+  | some f =>
+    let g (i : Nat) : Int := args.getD i (-1)
+    let f := if g 0 ≥ 0 then { f with restart := (g 0).toNat % 2 == 1 } else f
+    let f := if g 1 ≥ 0 then { f with ptype := (g 1).toNat % 256 } else f
+    let f := if g 2 ≥ 0 then { f with curver := (g 2).toNat % 256 } else f
+    let f := if g 3 ≥ 0 then { f with count := (g 3).toNat % 256 } else f
+    let f := if g 4 ≥ 0 then { f with sid := (g 4).toNat % 2 == 1 } else f
+    let f := if g 5 ≥ 0 then { f with cookie := flipCookieBit f.cookie (g 5).toNat } else f
+    let extra := if g 6 ≥ 0 then some ((List.range 20).map fun i => UInt8.ofNat (((g 6).toNat + i) % 256)) else none
+    let pad := if g 7 ≥ 0 then (g 7).toNat % 32 else 16
+    some (hsEncodeFields e f extra pad)
+
+/-- what a parsed bunch must look like, given what was put into the serializer (fields the header does not carry read back as 0) -/
+def expectView (b : Bunch) : Bunch :=
+  { b with closeReason := if b.bClose then b.closeReason else 0,
+           bPartialInitial := b.bPartial && b.bPartialInitial, bPartialFinal := b.bPartial && b.bPartialFinal,
+           nameIndex := if b.bReliable || b.bOpen then b.nameIndex else 0,
+           chSeq := if b.bReliable then b.chSeq % 1024 else 0, packetId := 0 }
+
 def toNat! (s : String) : Nat := s.toNat?.getD 0
 def toInt! (s : String) : Int := s.toInt?.getD 0
 
@@ -357,6 +455,10 @@ def World.step (w : World) (line : String) : World :=
             | none => w) w
         | _ => w
       | _, _ => w
+    | "skip" =>
+      match w.getEp (n 0) with
+      | some s => w.setEp (n 0) { s with cur := s.outbox.size }
+      | none => w
     | "drop" =>
       match w.getEp (n 0) with
       | some s => if s.cur < s.outbox.size then w.setEp (n 0) { s with cur := s.cur + 1 } else w
@@ -390,12 +492,13 @@ def World.step (w : World) (line : String) : World :=
         | .lsn _ => w.deliverLsn (n 0) (a 1) d
         | _ => w
       | _, _ => w
-    | "route" =>
+    | "route" | "routeat" =>
       match w.getEp (n 0), w.getEp (n 2) with
       | some r, some s =>
-        match r.node, s.outbox[s.cur]? with
+        let d? := if op == "route" then s.outbox[s.cur]? else pick s (toInt! (a 3))
+        match r.node, d? with
         | .lsn _, some d =>
-          let w := w.setEp (n 2) { s with cur := s.cur + 1 }
+          let w := if op == "route" then w.setEp (n 2) { s with cur := s.cur + 1 } else w
           match w.routes.find? (fun (p : (Nat × String) × Nat) => p.1 == (n 0, a 1)) with
           | some (_, cid) =>
             match w.getEp cid with
@@ -416,6 +519,57 @@ def World.step (w : World) (line : String) : World :=
         | _ => w
       | none => w
     | "uninit" => w.destroyEp (n 0)
+    | "craft" | "lcraft" =>
+      let isL := op == "lcraft"
+      let srcIdx := if isL then 2 else 1
+      match w.getEp (n 0), w.getEp (n srcIdx) with
+      | some r, some s =>
+        match pick s (toInt! (a (srcIdx + 1))) with
+        | some d =>
+          match craftDatagram w.env d ((args.drop (srcIdx + 2)).map toInt!) with
+          | some d' =>
+            match r.node with
+            | .lsn _ => if isL then w.deliverLsn (n 0) (a 1) d' else w
+            | .conn _ => if isL then w else w.deliverConn (n 0) d' false
+          | none => w.say "ret none"
+        | none => w.say "ret none"
+      | _, _ => w.say "ret none"
+    | "sendfill" =>
+      match w.getEp (n 0) with
+      | some r => match r.node with
+        | .conn wr =>
+          let b0 := bunchOfFlags (n 1) ((n 2) % 16 - (n 2) % 8 + (n 2) % 2) 0 (n 3) []
+          let h := ((encodeBunchHeader { b0 with chSeq := 0 }).getD []).length
+          let bits : Nat := if wr.ep.c.sendActive then ((wr.ep.c.freeBits w.env) - (h : Int) - (n 4 : Int)).toNat else 100
+          let nb := min ((bits + 7) / 8) Gen.SIZEOF_BUNCH_DATA.toNat
+          let raw := bytesToBits (payloadBytes (n 5) nb)
+          let data := (raw ++ List.replicate (bits - raw.length) false).take bits
+          let (c, ret) := wr.ep.c.sendBunch w.env { b0 with data := data }
+          (w.putConn (n 0) r { wr with ep := { wr.ep with c := c } }).say s!"ret {ret} {bits}"
+        | _ => w
+      | none => w
+    | "codec" =>
+      let bits := n 5 % 7266
+      let nb := (bits + 7) / 8
+      let data := (bytesToBits (payloadBytes (n 6) nb)).take bits
+      let b := { bunchOfFlags (n 0) (n 1) (n 2) (n 3) data with chSeq := toInt! (a 4) }
+      match encodeBunch b with
+      | none => w.say "codec encfail"
+      | some enc =>
+        let sentinel := natToBits 0xA5C3 16
+        match decodeBunch (enc ++ sentinel) with
+        | .fail _ => w.say "codec decfail"
+        | .ok b' rest =>
+          if rest != sentinel then w.say "codec mismatch position"
+          else if b' == expectView b then w.say s!"codec ok {enc.length}" else w.say "codec mismatch fields"
+    | "bbint" | "bbwrapped" | "bbpacked" =>
+      let v := n 0 % 4294967296
+      let mx := n 1 % 4294967296
+      if op == "bbint" && v ≥ mx then w.say "bb fail" else
+      let enc := if op == "bbint" then writeInt v mx else if op == "bbwrapped" then writeIntWrapped v mx else writeIntPacked v
+      match (if op == "bbpacked" then readIntPacked enc else readInt mx enc) with
+      | .fail _ => w.say s!"bb readfail {enc.length}"
+      | .ok got rest => w.say s!"bb ok {enc.length} {got} {enc.length - rest.length}"
     | "nodes" => w.say s!"ret {w.liveNodes}"
     | "hex" =>
       match w.getEp (n 0) with
